@@ -5,3 +5,4 @@ import ChiProofs.Props.C08
 import ChiProofs.Props.C02
 import ChiProofs.Props.C03
 import ChiProofs.Props.C17
+import ChiProofs.Props.C19
